@@ -68,6 +68,19 @@ class FakeIce:
         self.role = role
 
 
+def _public_fields(chunk):
+    out = {}
+    for k, v in vars(chunk).items():
+        if k.startswith("_"):
+            continue
+        if isinstance(v, (list, tuple)):
+            v = tuple(tuple(x) if isinstance(x, (list, tuple)) else x for x in v)
+        elif isinstance(v, (bytearray, memoryview)):
+            v = bytes(v)
+        out[k] = v
+    return tuple(sorted(out.items(), key=lambda kv: kv[0]))
+
+
 class FakeDtls:
     """Duck-typed RTCDtlsTransport stand-in: what RTCSctpTransport uses."""
 
@@ -77,12 +90,18 @@ class FakeDtls:
         self.link = None
         self.receiver = None
         self.relay = relay
+        self.relay_rng = None
 
     async def _send_data(self, data):
         if self.state != "connected":
             raise ConnectionError("Cannot send encrypted data, not connected")
         if self.relay:
-            await asyncio.sleep(0)
+            # behind a relay a send suspends: usually for one loop iteration, now and then for a while (a TURN channel
+            # bind, a full socket buffer), during which timers and application calls interleave with the suspended caller
+            d = 0
+            if self.relay_rng is not None and self.relay_rng.random() < 0.15:
+                d = self.relay_rng.choice([0.0005, 0.003, 0.02])
+            await asyncio.sleep(d)
         self.link.send(data)
 
     def _register_data_receiver(self, receiver):
@@ -177,6 +196,9 @@ class Endpoint:
         self.rig = rig
         self.name = name
         self.dtls = FakeDtls(role, relay)
+        if relay:
+            import random as _random
+            self.dtls.relay_rng = _random.Random(rig.rng.getrandbits(32))
         self.rxq = None
         self.sctp = None
         self.pump_task = None
@@ -359,8 +381,21 @@ class SctpRig:
                         self.reconfig_dropped += 1
                 try:
                     chunks = st.parse_packet(data)[3]
-                except Exception:
+                except Exception as exc:
+                    self.violation("wire-conformance", "unparseable", f"{src.name} put a datagram on the wire which its own parser refuses: "
+                                   f"{type(exc).__name__}: {exc}", datagram=bytes(data[:120]).hex())
                     return
+                for c in chunks:
+                    got = (type(c).__name__, _public_fields(c))
+                    built = getattr(src, "built", None)
+                    if built is not None:
+                        self.counters["chunks_on_wire_compared"] += 1
+                        if got in built:
+                            built.remove(got)
+                        else:
+                            same = [b for b in built if b[0] == got[0]]
+                            self.violation("wire-conformance", got[0], f"{src.name}: the {got[0]} on the wire parses to {str(got[1])[:300]} - no chunk with "
+                                           f"these field values was handed to _send_chunk (built, same type: {str(same[-2:])[:400]})")
                 for c in chunks:
                     if isinstance(c, st.ReconfigChunk):
                         self._tap_reconfig(direction, c, dropped=not delays)
@@ -487,6 +522,20 @@ class SctpRig:
                 ep.in_send -= 1
 
         ep.sctp._send = _send
+
+        # chunk -> wire conformance (C08): the public fields of every chunk object the transport hands to _send_chunk are
+        # recorded at the call; the datagram that reaches the link must parse back to exactly such a chunk
+        real_send_chunk = ep.sctp._send_chunk
+        ep.built = []
+
+        async def _send_chunk(chunk):
+            ep.built.append((type(chunk).__name__, _public_fields(chunk)))
+            if len(ep.built) > 64:
+                del ep.built[:16]
+            self.counters["chunks_built_observed"] += 1
+            return await real_send_chunk(chunk)
+
+        ep.sctp._send_chunk = _send_chunk
 
     # ------------------------------------------------------------------ channel bookkeeping
 
